@@ -278,11 +278,11 @@ class Poly:
         return Poly({((v.id, 1),): _ONE}, isint=v.pyint)
 
     @staticmethod
-    def real(name):
+    def new_real(name):
         return Poly.var(_reg(Var(name, "real")))
 
     @staticmethod
-    def integer(name):
+    def new_int(name):
         return Poly.var(_reg(Var(name, "int")))
 
     @staticmethod
